@@ -5,6 +5,19 @@ fn main() {
     let n: u64 = args.get(2).and_then(|s| s.parse().ok()).unwrap_or(20000);
     let d = featcheck::core_workload(seed, n);
     println!("core {:016x} {}", d.0, d.1);
+    // generated cases (zones + queries of every shape) replayed through the allocation-free API
+    if let Some(path) = args.get(4) {
+        match std::fs::read_to_string(path) {
+            Ok(text) => {
+                let (d, cases) = featcheck::replay_cases(&text);
+                println!("cases {:016x} {} {}", d.0, d.1, cases);
+            }
+            Err(e) => {
+                eprintln!("cannot read {}: {}", path, e);
+                std::process::exit(2);
+            }
+        }
+    }
     #[cfg(feature = "alloc")]
     {
         let dir = args.get(3).cloned().unwrap_or_default();
